@@ -211,13 +211,15 @@ pub fn run_contexts(p: &CProg, events: &[Event], cfg: &RunCfg) -> RunOut {
             }
         }
     }
+    // every input whose type some stream consumes is routed to exactly one context and logged there by H7 ("recv")
+    let must_receive = events.iter().filter(|e| p.streams.iter().any(|st| st.src.as_str() == &*e.event_type)).count();
     // quiescence: the trace stops growing (generous, bounded; a firing bound is inconclusive, never a violation)
     let mut outputs = vec![];
     let start = Instant::now();
     let mut last_len = usize::MAX;
     let mut stable_since = Instant::now();
     let mut quiesced = false;
-    while start.elapsed() < Duration::from_millis(6000 + 4 * cfg.stable_ms) {
+    while start.elapsed() < Duration::from_millis(20_000 + 4 * cfg.stable_ms) {
         while let Ok(o) = out_rx.try_recv() {
             outputs.push(o);
         }
@@ -227,7 +229,12 @@ pub fn run_contexts(p: &CProg, events: &[Event], cfg: &RunCfg) -> RunOut {
             }
         }
         let len = trace_len();
-        if len != last_len {
+        if len < must_receive {
+            // not every dispatched input has been taken from its context's queue yet: a quiet trace only
+            // means that the context threads are not being scheduled
+            last_len = len;
+            stable_since = Instant::now();
+        } else if len != last_len {
             last_len = len;
             stable_since = Instant::now();
         } else if stable_since.elapsed() > Duration::from_millis(cfg.stable_ms) {
